@@ -3,6 +3,7 @@ before casts / arithmetic / allocation / indexing, recursion carries a bounded d
 the panic-capable sites reachable from the decoder are an enumerated, reviewed set."""
 from ..cfg import Body, name_matches, const_int
 from ..report import where
+from ..facts import in_module
 from .. import taint
 
 LEVEL = "other"
@@ -34,8 +35,8 @@ BUFY = ("advance", "split_to", "split_off", "copy_to_slice", "get_u8")
 
 def decoder_scope(F, cg, root):
     """Local functions reachable from the decoder entry, staying inside protocol::resp."""
-    par = cg.reach([root], cha=False, stop=lambda p: not p.startswith(MODULE))
-    return sorted(p for p in par if p.startswith(MODULE) and p in F.fns)
+    par = cg.reach([root], cha=False, stop=lambda p: not in_module(p, MODULE))
+    return sorted(p for p in par if in_module(p, MODULE) and p in F.fns)
 
 
 def run(ctx, F, cg):
